@@ -53,6 +53,50 @@ def load_prop(pid: str):
     return importlib.import_module(f"gqsa.props.{pid.lower()}")
 
 
+_GUARDED = False
+
+
+def guard_rules() -> None:
+    """Wrap every `rule_*` function of the rule and property modules so that an AnalysisError raised by one rule is recorded on the
+    context (ctx.analysis_errors) and the remaining rules still run: a violation found by another rule is then reported (exit 1)
+    instead of being hidden behind the first unrecognised shape (exit 2)."""
+    global _GUARDED
+    if _GUARDED:
+        return
+    import functools, pkgutil
+    import gqsa.rules as _r
+    import gqsa.props as _p
+    mods = []
+    for pkg in (_r, _p):
+        for mi in pkgutil.iter_modules(pkg.__path__):
+            mods.append(importlib.import_module(f"{pkg.__name__}.{mi.name}"))
+    for mod in mods:
+        for name, fn in list(vars(mod).items()):
+            if name.startswith("rule_") and callable(fn) and not getattr(fn, "_guarded", False) and getattr(fn, "__module__", None) == mod.__name__:
+                def make(f):
+                    @functools.wraps(f)
+                    def wrapped(*a, **k):
+                        ctx = a[0] if a and isinstance(a[0], Ctx) else k.get("ctx")
+                        if ctx is None:
+                            return f(*a, **k)
+                        try:
+                            return f(*a, **k)
+                        except AnalysisError as e:
+                            if not hasattr(ctx, "analysis_errors"):
+                                ctx.analysis_errors = []
+                            ctx.analysis_errors.append(str(e))
+                            return None
+                    wrapped._guarded = True
+                    return wrapped
+                w = make(fn)
+                # re-bind in every module that imported the function by name
+                for m2 in mods:
+                    for n2, f2 in list(vars(m2).items()):
+                        if f2 is fn:
+                            setattr(m2, n2, w)
+    _GUARDED = True
+
+
 def analyse(pid: str, repo: Repo, tier: str, seed: int) -> Ctx:
     mod = load_prop(pid)
     ctx = Ctx(repo, pid, tier, seed)
@@ -75,12 +119,16 @@ def _run_knockout(args) -> Dict:
     if new == src:
         return {"name": ko.name, "status": "not-applicable", "why": "edit is a no-op"}
     try:
+        guard_rules()
         repo = Repo(root, overrides={ko.rel: new})
         ctx = Ctx(repo, pid, tier, 0)
         mod.run(ctx)
         fired = [f for f in ctx.findings if f.rule == ko.rule and (ko.expect in f.key or ko.expect in f.message)]
         if fired:
             return {"name": ko.name, "status": "fired", "rule": ko.rule, "finding": fired[0].key[:200]}
+        errs = getattr(ctx, "analysis_errors", [])
+        if errs:
+            return {"name": ko.name, "status": "analysis-error", "rule": ko.rule, "why": errs[0][:200]}
         return {"name": ko.name, "status": "missed", "rule": ko.rule,
                 "others": [f.key[:120] for f in ctx.findings][:5]}
     except AnalysisError as e:
@@ -142,13 +190,20 @@ def main(argv: Optional[List[str]] = None) -> int:
             replay_key = json.load(fh).get("key")
 
     try:
+        guard_rules()
         mod = load_prop(pid)
         repo = Repo(args.repo)
         ctx = Ctx(repo, pid, args.tier, seed)
         mod.run(ctx)
+        errs = getattr(ctx, "analysis_errors", [])
         if not ctx.findings:
+            if errs:
+                raise AnalysisError(errs[0] + (f" (+{len(errs) - 1} more)" if len(errs) > 1 else ""))
             # instance floors guard against a vacuous pass; a run that has findings reports them
             ctx.check_floors()
+        else:
+            for e_ in errs:
+                print(f"NOTE property={pid} a rule could not be evaluated on this tree (reported findings come from the other rules): {e_}")
     except AnalysisError as e:
         print(f"ANALYSIS-ERROR property={pid} {e}")
         _evidence_on_error(pid, args, seed, t0, str(e))
